@@ -70,8 +70,10 @@ def run(res, tier, rng):
         except ValueError:
             parsed_ok = False
         if not parsed_ok:
-            if got != u:
-                res.violation("property", "an unparseable url is not returned unchanged", input=dict(url=u, options=o), impl=got)
+            # returned unchanged -- after its inferred redirection, if any and if asked, has been followed (C04: a pre-step)
+            exp_u = call(infer_redirection, u) if o["infer_redirection"] else u
+            if got != exp_u:
+                res.violation("property", "an unparseable url is not returned unchanged", input=dict(url=u, options=o), impl=got, expected=exp_u)
             continue
         if isinstance(sp, Exc) or isinstance(sp, str):
             continue
@@ -182,6 +184,14 @@ def run(res, tier, rng):
                         res.violation("property", "an item that is kept loses some of its occurrences (the query is not the input's items minus the irrelevant ones)",
                                       input=dict(url=u, options=o), impl=items_out, expected=items_in)
                         break
+    for u in bad_inputs + ["https://facebook.com]/x", "https://youtube.com]/watch?v=abc", "https://[youtube.com/watch?v=abc", "http://[facebook.com/a/posts/1",
+                           "https://www.facebook.com:99999/x", "https://youtu.be:8x/abc"] + urls[len(bad_inputs):len(bad_inputs) + (400 if tier == "quick" else 5000)]:
+        res.evaluations += 1
+        got = call(normalize_url, u, platform_aware=True)
+        if isinstance(got, Exc):
+            res.violation("property", "normalize_url(platform_aware=True) raised %s" % got, input=dict(url=u, options=dict(platform_aware=True)))
+            continue
+        # (what a platform url that does not parse is rewritten into is C19's subject: only "never raises" here)
     # which items are deleted depends on the items, and on the host only through the per-domain filters: the very same
     # url on a neutral host, or on a look-alike of a filtered domain, loses the same items
     import importlib
